@@ -100,6 +100,7 @@ type History struct {
 
 func NewWorld(t *testing.T, out *bufio.Writer, c Config, id string) *World {
 	fund := map[int64]string{1: "2000000000000000000000000000000", 2: "2000000000000000000000000000000", 3: "2000000000000000000000000000000", 9: "100000000000"}
+	Scale = c.Scale
 	w := Setup(t, out, c.NVals, c.NUsers, c.StartNs, time.Duration(c.Unbonding), fund)
 	w.HistID = id
 	w.Start(c)
